@@ -50,6 +50,7 @@ type qview struct {
 	do                       bool
 	ver                      int
 	clientCookie             []byte
+	cookieOpts               [][]byte // every COOKIE option the query carried, whole
 	wantsNSID, hasKA, hasECS bool
 	opts                     []aOption
 }
@@ -80,6 +81,7 @@ func viewQuery(raw []byte) qview {
 	for _, o := range v.opts {
 		switch o.code {
 		case optCookie:
+			v.cookieOpts = append(v.cookieOpts, o.data)
 			if len(o.data) >= 8 {
 				v.clientCookie = o.data[:8]
 			}
@@ -299,7 +301,10 @@ func judgeHinted(entry string, ek entryKind, d deploy, query []byte, reply []byt
 		seen := map[int]int{}
 		for _, o := range optOptions(ropt) {
 			seen[o.code]++
-			if seen[o.code] > 1 && (o.code == optCookie || o.code == optKeepalive || o.code == optNSID) {
+			// a query that itself carried several cookies is outside what the
+			// property describes; its cookies are judged one by one below
+			if seen[o.code] > 1 && (o.code == optCookie || o.code == optKeepalive || o.code == optNSID) &&
+				!(o.code == optCookie && len(v.cookieOpts) > 1) {
 				if fromUpstream(o) && o.code != optKeepalive {
 					return fail(passThrough, fmt.Sprintf("entry=%s duplicate code=%d", e, o.code))
 				}
@@ -335,7 +340,16 @@ func judgeHinted(entry string, ek entryKind, d deploy, query []byte, reply []byt
 					}
 					return fail(e+"/option/cookie-without-client-cookie", fmt.Sprintf("%x", o.data))
 				}
-				if !bytes.Equal(o.data, serverCookieFor(d.remoteIP, v.clientCookie, d.secret)) {
+				okCookie := bytes.Equal(o.data, serverCookieFor(d.remoteIP, v.clientCookie, d.secret))
+				if !okCookie && len(v.cookieOpts) > 1 {
+					// several client cookies: the server cookie for any of them, or one of them handed back as sent
+					for _, c := range v.cookieOpts {
+						if bytes.Equal(o.data, c) || (len(c) >= 8 && bytes.Equal(o.data, serverCookieFor(d.remoteIP, c[:8], d.secret))) {
+							okCookie = true
+						}
+					}
+				}
+				if !okCookie {
 					if fromUpstream(o) {
 						return fail(passThrough, fmt.Sprintf("entry=%s foreign cookie %x", e, o.data))
 					}
